@@ -194,7 +194,16 @@ pub fn start_storescp(root: &Path, out_dir: &Path, extra: &[&str], cwd: &Path) -
         let log = cwd.join(format!("storescp-{port}.log"));
         let lf = std::fs::File::create(&log).map_err(|e| e.to_string())?;
         let lf2 = lf.try_clone().map_err(|e| e.to_string())?;
-        let mut child = Command::new(tool(root, "dicom-storescp"))
+        let mut cmd = Command::new(tool(root, "dicom-storescp"));
+        // the tool must not outlive the check, however the check ends
+        unsafe {
+            use std::os::unix::process::CommandExt;
+            cmd.pre_exec(|| {
+                libc::prctl(libc::PR_SET_PDEATHSIG, libc::SIGKILL);
+                Ok(())
+            });
+        }
+        let mut child = cmd
             .arg("-p")
             .arg(port.to_string())
             .arg("-o")
